@@ -129,6 +129,7 @@ end
 
 def parseGoal (s : String) : Option Goal :=
   let (w, rest) := headWord s
+  let w := (w.splitOn "@").headD w   -- "@n": how the harness passes the argument (see below); the abstract call is the same
   match w, parseTerms rest with
   | "c", some [t] => some (.call t)
   | "r", some [t] => some (.retract t)
@@ -162,6 +163,9 @@ def showSols (tmpl : Term) (sols : List Subst) : String :=
 
 def command (M : Machine σ) (r : Run σ) (cmd : String) : Run σ :=
   let (w, rest) := headWord cmd
+  -- `az@3`, `or@1` …: the harness realises the SAME abstract call with the argument passed in another Go
+  -- representation (through variables bound by earlier goals of one conjunction); model and spec ignore it
+  let w := (w.splitOn "@").headD w
   let emit (st : σ) (o : String) : Run σ := { r with st := st, outs := r.outs ++ [o] }
   match w with
   | "az" | "aa" | "ab" =>
